@@ -32,6 +32,6 @@ def run(ctx):
         "only STRUCTURED hostile input is explored: one grammar-node mutation or one inserted message per connection, derived from captured real flights; arbitrary byte strings, raw record streams and coverage-guided fuzzing are not covered by this technique family",
         "mutations are applied to the plaintext handshake message inside the hooked in-package server (verifOutgoing), so the server transcript and record protection stay consistent; the record layer itself is not mutated",
         "the message layout of a case is the same in every connection (fixed PKI, RSA leaf); TLC checks this on two captures and on every live message it judges",
-        "deadline verdicts: transport deadline %d ms, tolerance 1000 ms (TLA+ SlackMs), watchdog 3 s later; allocation verdicts: bytes allocated by the whole process during one serial connection vs the untouched flight + 1 MiB (TLA+ AllocSlackKB)" % cov["deadline_ms"],
+        "deadline verdicts: transport deadline %d ms, tolerance 1000 ms (TLA+ SlackMs), watchdog 3 s later; a row that is late or hung in the parallel pass is executed again calmly and judged again, a timing rejection must reproduce in a fresh process; allocation verdicts: bytes allocated by the whole process during one serial connection vs the untouched flight + 1 MiB (TLA+ AllocSlackKB)" % cov["deadline_ms"],
         "TLC, the Go toolchain and the hooks' faithful placement are trusted",
     ]
